@@ -115,28 +115,75 @@ def centre_sites(run, db, rule='C04.centre', only=None):
                         axes_.add(k)
         return axes_
 
+    def _helpers(fi, depth=2):
+        """prysm functions of the same module that fi calls (helpers extracted from it are looked through), to the given depth."""
+        out, seen = [], {fi.qual}
+
+        def rec(f, d):
+            if d == 0:
+                return
+            for n in walk_no_nested(f.node):
+                if not isinstance(n, ast.Call):
+                    continue
+                g = None
+                if isinstance(n.func, ast.Name):
+                    r = db.resolve_name(f.module, n.func.id)
+                    g = r if hasattr(r, 'qual') and isinstance(getattr(r, 'node', None), ast.FunctionDef) else None
+                elif isinstance(n.func, ast.Attribute) and isinstance(n.func.value, ast.Name) and n.func.value.id == 'self' and f.cls is not None:
+                    g = db.method(f.cls, n.func.attr)
+                if g is not None and g.qual not in seen and g.module is fi.module:
+                    seen.add(g.qual)
+                    out.append(g)
+                    rec(g, d - 1)
+        rec(fi, depth)
+        return out
+
+    def _halving_helper_calls(fi, helpers):
+        """assignments in fi whose value is a call of a helper that returns a halved (shape) argument: the locals they bind are centre indices too."""
+        halving = set()
+        for h in helpers:
+            if any(isinstance(b, ast.BinOp) and isinstance(b.op, (ast.FloorDiv, ast.Div, ast.RShift)) and isinstance(b.right, ast.Constant) and b.right.value in (1, 2)
+                   for r_ in walk_no_nested(h.node) if isinstance(r_, ast.Return) and r_.value is not None for b in ast.walk(r_.value)):
+                halving.add(h.name)
+        out = []
+        for n in walk_no_nested(fi.node):
+            if isinstance(n, ast.Assign) and len(n.targets) == 1 and isinstance(n.value, ast.Call) and ast.unparse(n.value.func).split('.')[-1] in halving:
+                t = n.targets[0]
+                names = [t.id] if isinstance(t, ast.Name) else ([e.id for e in t.elts] if isinstance(t, (ast.Tuple, ast.List)) and all(isinstance(e, ast.Name) for e in t.elts) else None)
+                if names:
+                    out.append((n, names, isinstance(t, ast.Name)))
+        return out
+
     def centre_site(qual, ctx, lens, axes, select=None, what=None):
         if not want_site(qual):
             return
         """the locals bound by halving a shape must equal s//2 of the lengths named in axes (by position when unpacked)."""
         fi = db.func(qual)
-        cands = _halvings(fi)
+        helpers = _helpers(fi)
+        cands = [(fi, c) for c in _halvings(fi) + _halving_helper_calls(fi, helpers)]
+        for h in helpers:
+            cands += [(h, c) for c in _halvings(h)]
         if not cands:
-            raise AnalysisError('centre site %s: no assignment halving a shape found' % qual)
+            raise AnalysisError('centre site %s: no assignment halving a shape found (also not in the helpers it calls)' % qual)
         n_inst = 0
         for par in parity_classes(lens):
             it, dom = mk(db, par)
+            it.watch = {id(c[0]) for f_, c in cands if f_ is not fi}
             res = it.run(fi, kwargs=lambda: ctx(dom), self_obj=(lambda: select(dom)) if select else None)
-            for node, names, whole in cands:
+            for owner, (node, names, whole) in cands:
                 for k, var in enumerate(names):
                     ax = axes if whole else [axes[k]] if k < len(axes) else None
-                    used = _use_axis(fi, var)
+                    used = _use_axis(owner, var)
                     if not whole and len(used) == 1 and max(used) < len(axes):
                         ax = [axes[max(used)]]      # the subscript position decides which axis this index addresses
                     if ax is None:
                         raise AnalysisError('centre site %s: %s binds more names than the array has axes' % (qual, norm_stmt(node)))
                     seen = set()
-                    for p, v in var_on_paths(res, var):
+                    if owner is fi:
+                        bound = var_on_paths(res, var)
+                    else:
+                        bound = [(p, e['env'][var]) for p in res for e in p.events if e['kind'] == 'watched' and e['node'] is node and e['env'].get(var) is not None]
+                    for p, v in bound:
                         items = v.items if isinstance(v, Tup) else [v]
                         key = tuple(sh(dom, x) for x in items)
                         if key in seen:
@@ -428,9 +475,11 @@ def check(run, db, tier):
                       'Slices.%s (twosided=%s) does not pass through the origin sample: %s' % (which, two, detail), fi.loc())
 
     # ---- who-may-place-a-centre -----------------------------------------
+    from .common import reachable_calls
+
     def calls_in(qual):
         fi = db.func(qual)
-        return fi, [ast.unparse(n.func) for n in walk_no_nested(fi.node) if isinstance(n, ast.Call)]
+        return fi, sorted(reachable_calls(db, fi))          # private helpers are looked through
     for qual, callee in (('prysm.coordinates.make_xy_grid', 'fftrange'),
                          ('prysm._richdata.RichData.x', 'make_xy_grid'), ('prysm._richdata.RichData.y', 'make_xy_grid'),
                          ('prysm.propagation.Wavefront.pad2d', 'pad2d'), ('prysm.propagation.Wavefront.crop', 'crop_center'),
